@@ -494,8 +494,11 @@ def run_native(con: Contract, inputs, only=None, awaits=None):
 
     CURRENT["rec"] = rec
     CURRENT["observe"] = (con.observe_, rec, bindings) if con.observe_ is not None else None
+    import contextlib
+
+    nctx = con.native_context(bindings, rec) if getattr(con, "native_context", None) is not None else contextlib.nullcontext()
     try:
-        with wrap_callees(rec, con.qualname), patched_timeouts(rec):
+        with wrap_callees(rec, con.qualname), patched_timeouts(rec), nctx:
             if self_obj is not None:
                 f = getattr(type(self_obj), con.qualname.split(".")[-1])
                 if isinstance(f, property):
